@@ -7,6 +7,21 @@ VERIF = os.path.dirname(os.path.dirname(os.path.abspath(__file__)))
 ALL = ["C%02d" % i for i in range(1, 21)]
 
 CHECKS = {
+    "C02": dict(
+        engine="Handshake12",
+        category="model_checking",
+        text=("TLC checks <>[](both established) under fairness with the fault budget inside Next on the DTLS 1.2 flight machine "
+              "(full, no-cookie, resumed); the pre-fix fsm12.finish must violate it. Every explored edge of the model is replayed as an "
+              "environment script (deliver/drop/duplicate/stale twin/timer) on two real endpoints with virtual timers, state compared "
+              "after every step, then the network turns reliable and both must complete; this is crossed with the certificate, PSK, "
+              "ECDHE-PSK, client-auth, CID and resumed scenario families. The property's own quantifier (every fault mask over the first "
+              "N datagrams of a direction, joint masks, sampled longer ones) runs on free-running endpoints with real timers, for DTLS 1.2 "
+              "incl. fragmented handshakes and DTLS 1.3 with and without HelloRetryRequest, with application data checked afterwards."),
+        design_ref="DESIGN.md 3 (M1), 4 (C02)",
+        note=("Trusted: TLC, lab network, virtual-timer hook (same handler as the real timer). Model: one datagram per flight; "
+              "DTLS 1.3 and fragmented handshakes are decided by mask enumeration only. Timing failures are re-run twice before they count."),
+        technique="TLA+ model (Handshake12.tla) with TLC liveness checking; TLC edge scripts replayed on real endpoints; fault-mask enumeration",
+    ),
     "C06": dict(
         engine="ReplayWindow",
         category="model_checking",
